@@ -39,13 +39,15 @@ def run(run, replay=None):
             run.count((tuple(ids), data[:60]), nontrivial=len(ids) >= 3)
             n += 1
     sample_paths = [p for p in paths if len(p) >= 3]
+    diff_paths = [p for p in sample_paths if '...diff' in p]
     for d in fgen.DEFECTS:
         for _ in range(25 if quick else 300):
-            ids = rng.choice(sample_paths)
+            ids = rng.choice(diff_paths if _ % 3 == 0 and diff_paths else sample_paths)
             # the defect on the first section it applies to, or (two of three times) on a section picked at random:
             # every kind of section gets every defect that can apply to it
-            for _try in range(6):
-                at = None if _try == 5 or rng.random() < 0.34 else rng.randrange(len(ids))
+            order = list(range(len(ids)))
+            rng.shuffle(order)                 # uniformly among the sections the defect applies to
+            for at in order + [None]:
                 data, info = fgen.build_file(ids, rng, defect=d, defect_at=at,
                                              main_enc=rng.choice(['utf-8', 'utf-16', 'latin-1']))
                 if info['defect_applied']:
